@@ -18,7 +18,9 @@ EXPLANATION = (
     "total length; R4 fixed widths: KIDA slices are contiguous [:34], [34:90], [90:] with 34 = 3*11+1, 56 = 5*11+1 as naunet's own KIDA writer "
     "lays them out; Leeds label/width tables have equal length and sum to the 125-column record, the cursor advances once per field; R5 every "
     "numeric attribute is read from the field position the format's layout (DESIGN Appendix C) gives it and converted with int/float; R6 code "
-    "tables map each external code to the ReactionType value the format definition gives it (Appendix B).")
+    "tables map each external code to the ReactionType value the format definition gives it (Appendix B); R7 temperature-window fields are decoded as written "
+    "(shared with C06.R4: KROME operator tokens / d-exponents / no-bound spellings or a number extractor that admits every exponent spelling; float(field) "
+    "without a silent fallback in the fixed formats).")
 ASSUMPTIONS = [
     "that an arbitrary well-formed line is decoded to the right values is a statement about all inputs of a parser: not decided",
     "record layouts and code tables are those of DESIGN.md Appendices B and C",
@@ -59,6 +61,9 @@ def check(ctx):
     _kida(ctx, pkg)
     _leeds(ctx, pkg)
     _r6(ctx, rm, pkg)
+    # temperature-window fields are decoded as written (shared with C06.R4): KROME window syntax, float(field) everywhere
+    from .c06 import _r4 as window_rules
+    ctx.absorb(window_rules, "R7", only=lambda o: o.outcome != "MISSING")
 
 
 # ------------------------------------------------------------------ R1
